@@ -88,11 +88,18 @@ func (v *fnVC) call(in ssa.CallInstruction, st *State) {
 			fv := v.val(c.Value)
 			v.safetyOb("nil-func-call", in.Pos(), tNot(tEq(fv, mk("nilFn", sFn))))
 			if yc := yieldClosureArg(c); yc != nil {
-				// range-over-func: the iterator calls the loop body (yield closure) zero or more
-				// times; without a loop invariant all that is known afterwards is the frame.
-				v.havocFuncBody(yc.Fn.(*ssa.Function), st)
-				v.e.uses["range-over-func: the iterator function itself writes nothing the caller can see; it only calls the loop body (yield)"] = true
-				v.notes = append(v.notes, "range-over-func loop at "+v.pos(in.Pos())+": loop body effects havocked (no iterator invariant)")
+				// range-over-func: iterator rule (invariants) or, without invariants, the frame only
+				v.iterCall(in, fv, yc, st)
+				return
+			}
+			if v.isYieldParam(c.Value) {
+				setResult(v.yieldCall(in, st))
+				return
+			}
+			if res, ok := v.dispatchCall(in, fv, st); ok {
+				if res != nil {
+					setResult(res)
+				}
 				return
 			}
 			ci.display = "func value " + c.Value.Name()
@@ -400,10 +407,14 @@ func (v *fnVC) havocLoc(x *Ex, loc string, st *State, pos token.Pos) {
 			so, _ := c.typeFromString(g.Type)
 			st.set("G$"+name, fresh(so))
 		}
-		if v.ct != nil && v.ct.HasAsg && !containsStr(v.ct.Assigns, name) && !containsStr(v.ct.Assigns, "*") && !containsStr(v.ct.Assigns, loc) {
+		fct := v.ct
+		if v.parent != nil && fct == nil {
+			fct = v.root().ct
+		}
+		if fct != nil && fct.HasAsg && !containsStr(fct.Assigns, name) && !containsStr(fct.Assigns, "*") && !containsStr(fct.Assigns, loc) {
 			nfr := v.callOrd["frame"]
 			v.callOrd["frame"] = nfr + 1
-			v.oblige("frame", fmt.Sprintf("frame#%d", nfr), v.ct.Props, "callee assigns ghost "+name+" which is outside `assigns`", v.pos(pos), v.reachNow(), tFalse(), st)
+			v.oblige("frame", fmt.Sprintf("frame#%d", nfr), fct.Props, "callee assigns ghost "+name+" which is outside `assigns`", v.pos(pos), v.reachNow(), tFalse(), st)
 		}
 		return
 	}
@@ -610,8 +621,15 @@ func (v *fnVC) copyOp(in ssa.CallInstruction, st *State) *T {
 // ---- return ----------------------------------------------------------------------------------
 
 func (v *fnVC) ret(i *ssa.Return, st *State) {
+	if v.onReturn != nil {
+		v.onReturn(i, st)
+		return
+	}
 	if v.ct == nil {
 		return
+	}
+	if v.ct.YieldN != "" {
+		v.producerReturn(i, st)
 	}
 	R := v.reachNow()
 	vars := map[string]*T{}
